@@ -2302,6 +2302,12 @@ impl Zeroconf {
         intf: &MyIntf,
         sock: &PktInfoUdpSocket,
     ) -> Vec<u8> {
+        // Nothing to take back where the service was never announced, e.g. still probing:
+        // a goodbye there could flush the records of the name's rightful owner.
+        if info.get_status(intf.index) != ServiceStatus::Announced {
+            return vec![];
+        }
+
         let is_ipv4 = sock.domain() == Domain::IPV4;
 
         let mut out = DnsOutgoing::new(FLAGS_QR_RESPONSE | FLAGS_AA);
